@@ -129,3 +129,57 @@ Example resp_safe_inhabited :
   (exists r, select_resp (p_resps ex_rep) (ex_result [x78]) = Some r /\ rs_status r = 200%N /\
              respond ex_rep (ex_result [x78]) = Returned 200 (result_with_defaults r (ex_result [x78]))).
 Proof. exact (conj ex_rep_wf (conj ex_result_valid (conj ex_result_safe (conj ex_result_tagged ex_result_untagged)))). Qed.
+
+(* ---- content types (http/encoding.go): the codec the generated server picks for the
+   body and the codec the generated client picks from the Content-Type it receives ---- *)
+From Transport Require Import LemmasContent.
+
+(* a response with a designed ContentType: for EVERY content type string Go's mime parser
+   accepts, the server encodes with family_of_ct of its media type, announces exactly that
+   media type, and the client - which sees only the header - picks the same codec.
+   canonical_mt: parsing the announced media type again gives it back (it holds of every
+   string produced by media_type_part that the examples and the correspondence stream met;
+   it is a hypothesis here, not proved in general). *)
+Theorem response_codec_agrees_designed : forall ct accept aok,
+  ct <> [] -> canonical_mt (media_type_part ct) ->
+  let mt := media_type_part ct in
+  resp_encoder ct POk accept aok [] = (Some (family_of_ct mt), mt) /\
+  resp_decoder mt true = family_of_ct mt.
+Proof. exact resp_codec_agrees_designed. Qed.
+Print Assumptions response_codec_agrees_designed.
+
+(* no designed ContentType: whatever the Accept header holds, accepted by the mime parser or
+   not, an encoder is picked (never nil) and the client picks the same codec *)
+Theorem response_codec_agrees_negotiated : forall accept aok,
+  exists c h, resp_encoder [] POk accept aok [] = (Some c, h) /\ resp_decoder h true = c.
+Proof. exact resp_codec_agrees_negotiated. Qed.
+Print Assumptions response_codec_agrees_negotiated.
+
+(* SetContentType: whatever Content-Type user code already put on the response (any bytes,
+   parameters or not), after the JSON / XML encoder is installed the media type in front of
+   the parameters selects that very codec on the client *)
+Theorem set_content_type_announces_codec : forall h ct,
+  ct = MT.json \/ ct = MT.xml -> h <> [] ->
+  family_of_ct (trim_right is_sp_tab (fst (cut_semi (set_content_type h ct)))) = family_of_ct ct.
+Proof. exact set_content_type_announces. Qed.
+Print Assumptions set_content_type_announces_codec.
+
+(* a String or Bytes result under a designed content type of the text family: EVERY byte
+   string is returned to the caller exactly (no resp_safe restriction: the text codec
+   neither trims nor escapes) *)
+Theorem text_response_roundtrip : forall ct v,
+  ct <> [] -> canonical_mt (media_type_part ct) -> family_of_ct (media_type_part ct) = CText -> v <> TvOther ->
+  respond_text ct POk v = TReturned v.
+Proof. exact respond_text_roundtrip. Qed.
+Print Assumptions text_response_roundtrip.
+
+(* non-vacuity: a vendor "+txt" type and "Text/Plain; charset=utf-8" are canonical and of the
+   text family, bytes holding "; " come back, a prior "application/vnd.api+xml ; q=1" becomes
+   "application/vnd.api+json; q=1", Accept: text/html negotiates the text codec *)
+Example content_types_inhabited :
+  canonical_mt (media_type_part EX.note_txt) /\ family_of_ct (media_type_part EX.note_txt) = CText /\
+  canonical_mt (media_type_part EX.plain_charset) /\ family_of_ct (media_type_part EX.plain_charset) = CText /\
+  respond_text EX.plain_charset POk (TvBytes EX.hello) = TReturned (TvBytes EX.hello) /\
+  set_content_type EX.prior MT.json = EX.api_json_q /\
+  resp_encoder [] POk MT.html false [] = (Some CText, MT.html).
+Proof. exact content_examples. Qed.
